@@ -5,9 +5,9 @@ import { evalSemantic, firstDiff, eraseHints } from './semantic.mjs';
 
 export const id = 'C05';
 
-export const HOSTS = ['inputNoType', 'inputText', 'inputCheckbox', 'inputRadio', 'inputDynamic', 'inputBracedConst', 'inputOtherStatic', 'select', 'textarea', 'component', 'componentUnbound', 'memberInput', 'memberSelect', 'memberDeepTextarea'];
+export const HOSTS = ['inputNoType', 'inputText', 'inputCheckbox', 'inputRadio', 'inputDynamic', 'inputBracedConst', 'inputOtherStatic', 'select', 'textarea', 'component', 'componentUnbound', 'memberInput', 'memberSelect', 'memberDeepTextarea', 'componentKebab'];
 export const TARGETS = ['ident', 'member', 'index', 'deepMember', 'memberOfCall', 'indexOfCallMember', 'thisLikeChain'];
-export const ARGS = ['none', 'ns', 'strSecond', 'computedSecond', 'nsHyphen', 'strSecondHyphen'];
+export const ARGS = ['none', 'ns', 'strSecond', 'computedSecond', 'nsHyphen', 'strSecondHyphen', 'nsValueSuffix', 'strSecondValueSuffix'];
 export const MODS = ['none', 'suffix1', 'suffix2', 'arrayList', 'arrayEmpty'];
 
 export function hostOf(b, host) {
@@ -30,6 +30,7 @@ export function hostOf(b, host) {
     case 'textarea': return { tag: { kind: 'html', name: 'textarea', src: 'textarea' }, pre: [], directive: 'vModelText', isComp: false };
     case 'component': b.importDefault('probe:C0', 'C0'); return { tag: { kind: 'bound', src: 'C0', i: b.leaf('C0') }, pre: [], isComp: true };
     case 'componentUnbound': return { tag: { kind: 'unbound', name: 'Foo', src: 'Foo' }, pre: [], isComp: true };
+    case 'componentKebab': return { tag: { kind: 'unbound', name: 'my-input', src: 'my-input' }, pre: [], isComp: true };
     // member-expression tags are components whatever their last segment is called
     case 'memberInput': b.importNs('probe:ns', 'ns0'); return { tag: { kind: 'member', src: 'ns0.input', i: b.leaf('ns0.input') }, pre: [], isComp: true };
     case 'memberSelect': b.importNs('probe:ns', 'ns0'); return { tag: { kind: 'member', src: 'ns0.select', i: b.leaf('ns0.select') }, pre: [], isComp: true };
@@ -63,6 +64,8 @@ export function makeModel(b, hostInfo, targetKind, argForm, modForm, idx) {
   if (argForm === 'ns') { name += `:title${idx}`; den.arg = { k: 'str', v: `title${idx}` }; }
   // argument names are kept as written (a hyphen is not camelised)
   else if (argForm === 'nsHyphen') { name += `:first-name${idx}`; den.arg = { k: 'str', v: `first-name${idx}` }; }
+  else if (argForm === 'nsValueSuffix') { name += `:input${idx}Value`; den.arg = { k: 'str', v: `input${idx}Value` }; }
+  else if (argForm === 'strSecondValueSuffix') { second = `"checked${idx}Value"`; den.arg = { k: 'str', v: `checked${idx}Value` }; }
   else if (argForm === 'strSecondHyphen') { second = `"row-value${idx}"`; den.arg = { k: 'str', v: `row-value${idx}` }; }
   else if (argForm === 'strSecond') { second = `"named${idx}"`; den.arg = { k: 'str', v: `named${idx}` }; }
   else if (argForm === 'computedSecond') { const g = b.global({ k: 'str', v: `dyn${idx}` }); second = g; den.arg = { k: 'leaf', i: b.leaf(g) }; }
@@ -72,7 +75,7 @@ export function makeModel(b, hostInfo, targetKind, argForm, modForm, idx) {
   else if (modForm === 'arrayList') { third = '["lazy", "number"]'; den.mods = ['lazy', 'number']; }
   else if (modForm === 'arrayEmpty') { third = '[]'; }
   // combinations not decided by the statement
-  if ((argForm === 'ns' || argForm === 'nsHyphen') && second) return null;
+  if ((argForm === 'ns' || argForm === 'nsHyphen' || argForm === 'nsValueSuffix') && second) return null;
   if ((modForm === 'suffix1' || modForm === 'suffix2') && (second || third)) return null;
   if (!hostInfo.isComp && argForm !== 'none') return null; // argument on a form element: unspecified
   const parts = [t.src];
@@ -81,7 +84,7 @@ export function makeModel(b, hostInfo, targetKind, argForm, modForm, idx) {
   const attrSrc = parts.length === 1 && !(argForm === 'none' && false) ? `${name}={${t.src}}` : `${name}={[${parts.join(', ')}]}`;
   // v-models entry: [target, "arg"?, [mods]?] — only expressible without suffixes / :arg
   let entrySrc = null;
-  if (argForm !== 'ns' && argForm !== 'nsHyphen' && !modForm.startsWith('suffix')) entrySrc = `[${parts.join(', ')}]`;
+  if (argForm !== 'ns' && argForm !== 'nsHyphen' && argForm !== 'nsValueSuffix' && !modForm.startsWith('suffix')) entrySrc = `[${parts.join(', ')}]`;
   return { attrSrc, entrySrc, den };
 }
 
@@ -97,6 +100,8 @@ export function build(host, entries, mode, neighbours) {
   let attrs = [...h.pre];
   if (neighbours === 'plainBefore') { const g = b.global({ k: 'sent' }); attrs.push(A.attr('pa', { k: 'leaf', i: b.leaf(g), src: g })); }
   if (neighbours === 'spreadBefore') { const s = b.global({ k: 'obj', v: { id: { k: 'str', v: 'sp' } } }); attrs.push(A.spread(b.leaf(s), s)); }
+  // an explicit listener for the same event written BEFORE the model: both must stay (merged under mergeProps)
+  if (neighbours === 'listenerBefore') { const h0 = b.global({ k: 'fn', id: 'userListenerBefore' }); attrs.push(A.attr('onUpdate:modelValue', { k: 'leaf', i: b.leaf(h0), src: h0 })); }
   if (mode === 'models') {
     if (models.some((m) => m.entrySrc === null)) return null;
     const src = `v-models={[${models.map((m) => m.entrySrc).join(', ')}]}`;
@@ -147,14 +152,14 @@ export function* generate({ tier, seed }) {
   for (let i = 0; i < nLists; i++) {
     const len = 1 + rng.int(3);
     const entries = [];
-    for (let j = 0; j < len; j++) entries.push([rng.pick(TARGETS), rng.pick(['none', 'strSecond', 'strSecond', 'strSecond', 'strSecondHyphen', 'computedSecond']), rng.pick(['none', 'arrayList', 'arrayEmpty'])]); // computed arguments hit a known finding: keep them rare
+    for (let j = 0; j < len; j++) entries.push([rng.pick(TARGETS), rng.pick(['none', 'strSecond', 'strSecond', 'strSecondValueSuffix', 'strSecondHyphen', 'computedSecond']), rng.pick(['none', 'arrayList', 'arrayEmpty'])]); // computed arguments hit a known finding: keep them rare
     // at most one entry without an argument (two would both bind modelValue)
     if (entries.filter((e) => e[1] === 'none').length > 1) continue;
     const host = rng.pick(['component', 'componentUnbound', 'memberInput', 'memberDeepTextarea']);
     for (const mode of ['models', 'single']) {
-      const nb = rng.pick(['none', 'plainBefore', 'spreadBefore', 'plainAfter', 'spreadAfter', 'listenerAfter']);
+      const nb = rng.pick(['none', 'plainBefore', 'spreadBefore', 'plainAfter', 'spreadAfter', 'listenerAfter', 'listenerBefore']);
       // an explicit listener written after the model overrides it under last-wins semantics: only with mergeProps on
-      const g = emit(host, entries, mode, nb, [nb === 'listenerAfter' ? rng.pick(OPTS.filter((o) => o.mergeProps)) : rng.pick(OPTS)]);
+      const g = emit(host, entries, mode, nb, [nb === 'listenerAfter' || nb === 'listenerBefore' ? rng.pick(OPTS.filter((o) => o.mergeProps)) : rng.pick(OPTS)]);
       if (g) yield g;
     }
   }
